@@ -454,9 +454,15 @@ def explore(name, harness_fn, loops=None, summaries=None, timeout_ms=10000, max_
             st.obligations.append(Obl(name + '/supported', 'undecided', 0, 'unsupported: ' + msg))
         except PyExc as e:
             # an uncaught Python exception on a feasible path
-            status = 'refuted' if not st.imprecise else 'undecided'
-            st.obligations.append(Obl(name + '/no-uncaught-exception', status, 0,
-                                      'uncaught %s(%s)' % (e.tname, e.msg), st._model()))
+            mdl = st._model()
+            if mdl is None and st.model_status == 'unsat':
+                mdl = 'infeasible'
+            status = 'refuted' if (not st.imprecise and mdl is not None) else 'undecided'
+            why = '' if status == 'refuted' else (' [imprecise path]' if st.imprecise else
+                                                  ' [path feasibility not confirmed by the solver: no model]')
+            if mdl != 'infeasible':       # (an infeasible path raises nothing)
+                st.obligations.append(Obl(name + '/no-uncaught-exception', status, 0,
+                                          'uncaught %s(%s)%s' % (e.tname, e.msg, why), mdl))
         except RecursionError:
             st.obligations.append(Obl(name + '/supported', 'undecided', 0, 'interpreter recursion limit'))
         for o in st.obligations:
